@@ -8,7 +8,8 @@ class C02(ContCheck):
     id = 'C02'
     nontrivial_rule = ('a history is non-trivial when at least one operation leaves the list non-empty (an insertion '
                        'succeeded); index arguments are drawn from -len-2..len+2 of the current ideal length, keys from a '
-                       '4-letter alphabet; distinct = distinct case lines (each history is run on all three classes); further strata: own-object arguments (remove/index/find/contains of get(i)), second use of a copy (`fork` = dup and keep using the COPY while the original is read back too, `swap`), insert_at/get/remove_at at every power of two and its neighbours (up to 257, class array up to 1025; thorough 513 / 2049), lists of 31..33, 63..65, 127..129, 255..257 (thorough ..1025) elements with every operation at the first/second/quarter/middle/last positions')
+                       '4-letter alphabet; distinct = distinct case lines (each history is run on all three classes); further strata: own-object arguments (remove/index/find/contains of get(i)), second use of a copy (`fork` = dup and keep using the COPY while the original is read back too, `swap`), insert_at/get/remove_at at every power of two and its neighbours (up to 257, class array up to 1025; thorough 513 / 2049), lists of 31..33, 63..65, 127..129, 255..257 (thorough ..1025) elements with every operation at the first/second/quarter/middle/last positions'
+                       '; depth stratum (implementation-side oracle, ASan and plain -O0 build, 8 MB stack): lists of 10^5 / 4*10^5 (thorough 10^6) elements with every whole-chain scenario, and stack high-water marks at 1000 / 3000 elements')
     assumptions = ['elements are non-empty spif_str objects compared by spif_str_cmp; element arguments of '
                    'append/prepend/insert/insert_at/index are non-NULL (NULL guards are C16)',
                    'ordered `insert` through the list interface is issued only on an ascending placeholder-free sequence '
@@ -27,7 +28,8 @@ class C02(ContCheck):
               'the extracted spec and the ASan build on the same histories (return values + full read-back through get(i), '
               'i in -len-1..len, and a fresh iterator after every operation); every divergence is a failing input.'
               " Stage 2 (in Properties/C02_array.v, C02_linked_list.v, C02_dlinked_list.v, C02_interchangeable.v): pointer-level Gallina models of array.c (items block of exactly len slots, REALLOC/memmove bounds-checked), linked_list.c and dlinked_list.c (node store with use-after-free faults, head/tail/prev/next updates as written, traversals on fuel) are proved to REFINE the ideal sequence for every history of all 15 list operations incl. dup and iterators: never a Fault, outputs equal, and the representation predicate holds afterwards (array: items = the sequence; linked: the next chain from head spells it and no other node is live; dlinked: additionally the prev chain from tail spells the reverse), hence no link corruption, no leak of nodes on deletion, and the three classes are interchangeable (corollary C02_classes_interchangeable). Preconditions: lengths <= INT_MAX; ordered `insert` not issued with the head's key (the classes place equal keys differently; ContSpec documents it). Each class model is tied to its .c file by comparing return values, read-back AND the structure dump (items[], next walk, prev walk from tail) with the ASan build on every generated history. Decided only by the correspondence check: that the models mirror the C text, lifetime of the element objects, identity of dup'ed objects."
-              ' Strengthened after the round-2 seeds: (a) far index values - insert_at past the end at every power of two and its neighbours, so the NULL padding crosses every allocation-block boundary; (b) second use of a copy - `fork` dups the list through the interface and the history continues on the COPY (and, after `swap`, on the original) while both are read back after every step and both are deleted at the end; the pointer-level models run the same composite with their own dup functions (dl_dup, ll_dup, arr_list_dup) in one store; (c) own-object arguments - the list is handed back the object it stores (remove/index/find/contains of get(i)); (d) sized lists built with quiet steps; (e) an exhausted iterator must stay exhausted. These are harness/driver-level compositions of the existing spec operations: the op datatypes and theorems are unchanged. Containers above 300 elements (class array list mode: 1100) are compared with the ideal object only; the pointer-level models (O(n) per memory access) take the rest.'),
+              ' Strengthened after the round-2 seeds: (a) far index values - insert_at past the end at every power of two and its neighbours, so the NULL padding crosses every allocation-block boundary; (b) second use of a copy - `fork` dups the list through the interface and the history continues on the COPY (and, after `swap`, on the original) while both are read back after every step and both are deleted at the end; the pointer-level models run the same composite with their own dup functions (dl_dup, ll_dup, arr_list_dup) in one store; (c) own-object arguments - the list is handed back the object it stores (remove/index/find/contains of get(i)); (d) sized lists built with quiet steps; (e) an exhausted iterator must stay exhausted. These are harness/driver-level compositions of the existing spec operations: the op datatypes and theorems are unchanged. Containers above 300 elements (class array list mode: 1100) are compared with the ideal object only; the pointer-level models (O(n) per memory access) take the rest.'
+              " Strengthened after the round-4 seeds: a DEPTH stratum with an implementation-side oracle (the extracted models cannot run containers this large): lists of 10^5 and 4*10^5 elements (thorough: also 10^6; class array under ASan 10^4 / 2*10^4 because ASan's realloc copies the block on every append) built through the interface the O(1)-per-step way of the class where there is one, then every scenario the C code could answer by recursing along the chain or walking all of it (dup, reverse, to_array, a full iterator sweep, get at first/middle/last, index/find/contains/remove of the last element, remove_at and insert_at at the end, the ordered insert of a key above all others, deletion), each checked in the harness against its own array of the N objects (count, identity at first/middle/last position, full order in sweeps and to_array); run under the ASan build AND a plain -O0 build without sanitizer, both under the default 8 MB stack, with a per-case watchdog: a crash, a timeout or a wrong result is a level-A failure whose replay is `iface class deep:N;scenario`. In addition the stack high-water mark of every scenario is measured at 1000 and 3000 elements (painted stack); growth of 8 bytes per element or more shows a recursion per element, is confirmed by a run at the predicted overflow size where such a container can be built, and is reported as a broken correspondence otherwise. The sizes that were run are recorded in the evidence (coverage.depth_stratum)."),
         design_ref='DESIGN.md section 7, C02')
 
     def gen(self, tier, rng):
